@@ -8,9 +8,8 @@ From Coq Require Import List ZArith Ascii Bool.
 From Coq Require Import String.
 Local Notation length := List.length.
 From PyOrb.spec Require Import Spec_Time Spec_TLE.
-From PyOrb.model Require Import M_Checksum M_TleText M_PyStr.
-From PyOrb.gen Require Import Gen_tle.
-From PyOrb.proofs Require Import P_Checksum P_TleText P_GenTle.
+From PyOrb.model Require Import M_Checksum M_TleText.
+From PyOrb.proofs Require Import P_Checksum P_TleText.
 Import ListNotations.
 Open Scope Z_scope.
 
@@ -66,38 +65,6 @@ Proof. exact values_small. Qed.
 Print Assumptions C02_decimal_sizes.
 
 Open Scope string_scope.
-(* TIE TO THE SOURCE.  gen_parse / gen_read_tle / gen_read_tle_decimal / gen_tle_init (gen/Gen_tle.v) are
-   REGENERATED from Tle._parse_tle, Tle._read_tle and Tle.__init__ of pyorbital/tlefile.py on every run by the
-   fail-closed AST translator translator/gen_tle.py: which columns, which converter, the order of evaluation and
-   which exception escapes all come from the source text.  They agree with the hand model on EVERY pair of
-   lines (any length, any characters), so each theorem above is a theorem about the source as it is now. *)
-Theorem C02_source_parse : forall plat l1 l2, to_option (gen_parse plat l1 l2) = decode l1 l2.
-Proof. exact gen_parse_correct. Qed.
-Print Assumptions C02_source_parse.
-
-Theorem C02_source_read_tle : forall plat l1 l2,
-  to_option (gen_read_tle plat l1 l2) = read_tle l1 l2 /\
-  (forall rep, gen_read_tle_decimal rep = of_opt (rtd_exn rep) (read_tle_decimal rep)).
-Proof. intros plat l1 l2. split; [apply gen_read_tle_correct|exact gen_read_tle_decimal_correct]. Qed.
-Print Assumptions C02_source_read_tle.
-
-Theorem C02_source_init : forall plat l1 l2, to_option (gen_tle_init plat l1 l2) = tle_init l1 l2.
-Proof. exact gen_tle_init_correct. Qed.
-Print Assumptions C02_source_init.
-
-(* the headline statements, directly on the regenerated constructor *)
-Theorem C02_source_decode_encode : forall plat f, wf f = true ->
-  gen_parse plat (fst (encode f)) (snd (encode f)) = Ok (values f).
-Proof. exact gen_parse_encode. Qed.
-Print Assumptions C02_source_decode_encode.
-
-Theorem C02_source_init_encode : forall plat f pre1 post1 pre2 post2, wf f = true ->
-  allspace pre1 = true -> allspace post1 = true -> allspace pre2 = true -> allspace post2 = true ->
-  gen_tle_init plat (pre1 ++ fst (encode f) ++ post1) (pre2 ++ snd (encode f) ++ post2)
-  = Ok (fst (encode f), snd (encode f), values f).
-Proof. exact gen_tle_init_encode. Qed.
-Print Assumptions C02_source_init_encode.
-
 (* non-vacuity 1: the printer reproduces a real element set (ISS, 2008), checksums included *)
 Example C02_iss :
   let L := list_ascii_of_string in
